@@ -34,6 +34,7 @@ from .common import Check, impl_call
 ALL_FULL = ["a", "b", "c", "d", "e", "f"]
 TRACKABLE = ["R1", "R2"]
 UNKNOWN = ["R3"]
+PROPS = ["KillCascades", "UnloadComplete"]
 INVS = ["TypeOK", "EnvKept", "RegionsKnown", "LinksBothWays", "OrphansExact", "PendingAnswerable", "KillComplete",
         "OutDisjoint", "NoRaise", "FullIndex", "LocalIndex", "ChildLists", "ParentLinks", "Orphanage", "Futures"]
 
@@ -294,10 +295,15 @@ class World:
         if n == "Kill":
             return self._deliver(Message("KillObject", *[Block("ObjectData", ID=a["l"]) for a in acts]), act["r"])
         if n == "Track":
-            st, r = impl_call(self.session.objects.track_region_objects, I["HANDLES"][act["r"]])
+            # what the proxy does on UseCircuitCode (a dead circuit is replaced) and RegionHandshake
+            reg = self.regions[act["r"]]
+            st, r = impl_call(self.session.open_circuit, ("127.0.0.1", 1), reg.circuit_addr, self.transport)
+            if st == "ok":
+                st, r = impl_call(self.session.objects.track_region_objects, I["HANDLES"][act["r"]])
             return [] if st == "ok" else [r]
         if n == "Teardown":
-            st, r = impl_call(self.regions[act["r"]].objects.clear)
+            # what the proxy does on CloseCircuit / DisableSimulator, for a tracked region or not
+            st, r = impl_call(self.regions[act["r"]].mark_dead)
             return [] if st == "ok" else [r]
         if n == "Request":
             om = self.regions[act["r"]].objects
@@ -709,7 +715,7 @@ def _situations(g: CGraph) -> Dict[str, int]:
                     for x in g.sobs[d]["links"]):
                 hit("kill.spares-avatar-child")
         if n == "Teardown" and len(g.sobs[d]["sess"]) < len(g.sobs[s]["sess"]):
-            hit("teardown.unloads-objects")
+            hit("teardown.unloads-objects" + ("" if act["r"] in src[1] else ".of-untracked-region"))
         if o["resolved"]:
             hit("request.resolved-by:" + n + ":" + act.get("kind", ""))
         if o["cancelled"]:
@@ -721,7 +727,7 @@ REQUIRED_SITUATIONS = [
     "announce.new", "announce.ignored", "announce.same-identity", "announce.region-change",
     "announce.region-change.to-regionless", "announce.region-change.from-regionless", "announce.local-id-change",
     "announce.reparent", "announce.adopts-orphans", "announce.becomes-orphan", "kill.victims=0", "kill.victims=1",
-    "kill.victims=2", "kill.spares-avatar-child", "teardown.unloads-objects", "tag:target-regionless",
+    "kill.victims=2", "kill.spares-avatar-child", "teardown.unloads-objects", "teardown.unloads-objects.of-untracked-region", "tag:target-regionless",
     "tag:cachedHit-known-fullid", "tag:kill-untracked-parent-of-avatar", "tag:cancels-requests",
     "request.resolved-by:Announce:full", "request.resolved-by:Announce:compressed", "request.resolved-by:Announce:cachedHit",
     "request.resolved-by:Touch:terse", "request.resolved-by:Touch:cachedSame", "request.resolved-by:Props:",
@@ -781,7 +787,7 @@ class _McRun:
         self.label = "SceneGraph_MC " + label
         cfg_text = ("SPECIFICATION MSpec\nCONSTANTS %s\nVIEW MView\nCONSTRAINT Bound\n"
                     % _consts(U, Depth=depth, Bugs=_tla_set(bugs))
-                    + "".join("INVARIANT %s\n" % i for i in INVS) + "PROPERTY KillCascades\n")
+                    + "".join("INVARIANT %s\n" % i for i in INVS) + "".join("PROPERTY %s\n" % i for i in PROPS))
         self.dir = tempfile.mkdtemp(prefix="mc-", dir=chk.scratch)
         cfg = os.path.join(self.dir, "SceneGraph_MC.cfg")
         with open(cfg, "w") as f:
@@ -868,7 +874,7 @@ class Sim:
     def choose(self) -> Optional[dict]:
         rng, U = self.rng, self.U
         x = rng.random()
-        regs = sorted(self.tracked) + U.get("unknown", UNKNOWN)
+        regs = U.get("trackable", TRACKABLE) + U.get("unknown", UNKNOWN)   # new objects for untracked ones are ignored
         if x < 0.46:
             for _ in range(20):
                 f = rng.choice(U["full"])
@@ -913,9 +919,10 @@ class Sim:
                 return None
             return {"n": "Request", "r": r, "l": l, "ty": ty}
         if x < 0.95:
-            un = [r for r in U.get("trackable", TRACKABLE) if r not in self.tracked]
+            un = [r for r in U.get("trackable", TRACKABLE) if r not in self.tracked
+                  and not any(v and v[0] == r for v in self.obj.values())]
             return {"n": "Track", "r": rng.choice(un)} if un else None
-        return {"n": "Teardown", "r": rng.choice(sorted(self.tracked))} if self.tracked else None
+        return {"n": "Teardown", "r": rng.choice(U.get("trackable", TRACKABLE))}
 
     def apply(self, act):
         n = act["n"]
@@ -1160,15 +1167,16 @@ def run(chk: Check):
                        "kills and a region teardown.")
     chk.assumptions += [
         "simulator never gives one local ID to two live objects of a region; parent links form no cycle (guards)",
-        "object updates name a tracked region or a handle the session has no region for; not a registered region "
-        "between its teardown and its next handshake",
+        "a region's handshake (Track) arrives while nothing is attributed to the region: an object that a straggler "
+        "update moved into a not yet / no longer tracked region is gone (moved on, region unloaded) before that",
         "every update message changes at least one property value (the code runs its hooks, which resolve requests, "
         "only then)",
         "the event loop runs between two messages (B1: one block per message; B2: also multi-block messages, whose "
         "blocks are handled back to back and observed after the last block)",
         "cascading kills spare avatars (the code's documented indra behaviour)",
-        "an object announced for an untracked handle stays in the session-wide index only (pinned by "
-        "tests/proxy/test_object_manager.py::test_object_moved_to_bad_region)",
+        "an object announced for an untracked region stays in the session-wide index only, attributed to that region "
+        "(pinned by tests/proxy/test_object_manager.py::test_object_moved_to_bad_region); unloading that region "
+        "(mark_dead, tracked or not) removes it",
     ]
     U2L = dict(U2, locals=[1, 2])
     U3R = dict(U3, trackable=["R1"], unknown=[])
